@@ -252,6 +252,17 @@ fn hash_case<T: U + StableHash + std::fmt::Debug>(
             }
         }
     }
+    // discrimination against a re-association of the value's own parts
+    if let Some(w) = T::mk_neighbour(&mut Tape::new(bytes), 2) {
+        if !v.veq(&w) {
+            let (s2, h2) = stream_of(&w);
+            if s1 == s2 || h1 == h2 {
+                return fail(format!(
+                    "two different values built from the same parts hash alike: {v:?} and {w:?}"
+                ));
+            }
+        }
+    }
     CaseOut { violation: None, nontrivial, sample: Some(format!("{v:?}")) }
 }
 
